@@ -13,6 +13,8 @@ package scen
 //   c10_lookup.go     scenarios "lookup-overfeed" and "putvalue-echo-dht" (harness H1)
 //   c10_slow.go       scenario "messenger-slow" (harness H2): answers delivered on a schedule
 //                     (byte string + pacing), liveness rule with an absolute bound
+//   c10_trace.go      a tracer provider (OpenTelemetry public API) whose spans are recording for the
+//                     calls messenger-bytes chose to trace: "cannot crash" names no configuration
 //
 // The one response class that is known to crash the client (a decodable reply
 // to PUT_VALUE that carries no record, DESIGN §7 #1) is generated only by the
